@@ -120,6 +120,7 @@ func countGoTypesNamed(p *synth.Program, name string) int {
 
 func c03Programs(cfg *core.Config) []*synth.Program {
 	progs := typeProgs(cfg.Seed, cfg.Pick(32, 400))
+	progs = append(progs, staticPrograms("C03")...)
 	return append(progs, pinnedPrograms("C03")...)
 }
 
